@@ -393,7 +393,9 @@ def isinstance_(interp, v, t):
             return False
         if isinstance(v, Obj) and v.cls is not None:
             return any(isinstance(c, ExtType) and c.name == n for c in v.cls.mro())
-        if n in ("nn.Module", "nn.ModuleDict", "ABC"):
+        if n in ("nn.Module", "nn.ModuleDict"):
+            return isinstance(v, (ModuleDictV, ParamListV)) if n == "nn.Module" else (isinstance(v, ModuleDictV) and v.kind == "nn.ModuleDict")
+        if n == "ABC":
             return False
         raise Unsupported(f"isinstance against {n}")
     if isinstance(t, ClassV):
@@ -416,6 +418,103 @@ class Handle:
         if self in lst:
             lst.remove(self)
         self.active = False
+
+
+class ModuleDictV:
+    """torch.nn.ModuleDict / WeakValueDictionary / plain ordered mapping of modules (ordered, string keys)."""
+
+    is_module = True
+
+    def __init__(self, init=None, kind="nn.ModuleDict"):
+        self.d = dict(init or {})
+        self.kind = kind
+        self.fields = {"training": True}
+
+    def sym_getitem(self, interp, k):
+        if k not in self.d:
+            raise SymRaise("KeyError", repr(k))
+        return self.d[k]
+
+    def sym_setitem(self, interp, k, v):
+        self.d[k] = v
+
+    def sym_delitem(self, interp, k):
+        if k not in self.d:
+            raise SymRaise("KeyError", repr(k))
+        del self.d[k]
+
+    def sym_contains(self, interp, k):
+        return k in self.d
+
+    def sym_iter(self, interp):
+        return list(self.d.keys())
+
+    def sym_len(self, interp):
+        return len(self.d)
+
+    def sym_truth(self, interp):
+        return len(self.d) > 0
+
+    def sym_getattr(self, interp, name):
+        if name in ("keys", "values", "items"):
+            return lambda: list(getattr(self.d, name)())
+        if name == "get":
+            return lambda k, default=None: self.d.get(k, default)
+        if name == "update":
+            return lambda other: self.d.update(other.d if isinstance(other, ModuleDictV) else other)
+        if name == "pop":
+            return lambda k, *d: self.d.pop(k, *d)
+        if name == "clear":
+            return self.d.clear
+        if name == "training":
+            return self.fields["training"]
+        if name == "train":
+            def train(mode=True):
+                self.fields["training"] = mode
+                for v in self.d.values():
+                    interp.call(interp.getattr(v, "train"), [mode], {})
+                return self
+            return train
+        if name == "eval":
+            return lambda: self.sym_getattr(interp, "train")(False)
+        if name == "__contains__":
+            return lambda k: k in self.d
+        if name in self.d:
+            return self.d[name]
+        raise SymRaise("AttributeError", f"ModuleDict has no attribute {name}")
+
+
+class ParamListV:
+    """torch.nn.ParameterList: ordered list of tensors."""
+
+    is_module = True
+
+    def __init__(self, init=None):
+        self.l = list(init or [])
+
+    def sym_iter(self, interp):
+        return list(self.l)
+
+    def sym_len(self, interp):
+        return len(self.l)
+
+    def sym_truth(self, interp):
+        return len(self.l) > 0
+
+    def sym_getitem(self, interp, k):
+        return self.l[k]
+
+    def sym_getattr(self, interp, name):
+        if name == "append":
+            def app(v):
+                self.l.append(v)
+                return self
+            return app
+        if name == "extend":
+            return lambda vs: self.l.extend(interp.iterate(vs))
+        if name in ("train", "eval"):
+            return lambda *a: self
+        raise SymRaise("AttributeError", f"ParameterList has no attribute {name}")
 
 
 class WeakMethodV:
@@ -728,7 +827,12 @@ def install(interp):
             return sorted(xs, key=lambda x: interp.call(key, [x], {}), reverse=reverse)
         return sorted(xs, reverse=reverse)
 
-    def _type(x):
+    def _type(x, *rest):
+        if rest:
+            from .interp import DynClassV
+
+            bases, attrs = rest
+            return DynClassV(interp, x, list(bases), dict(attrs))
         if isinstance(x, Obj):
             return x.cls
         if isinstance(x, T):
@@ -794,7 +898,9 @@ def install(interp):
     ).items():
         b[name] = fn
     b["object"] = E("object")
-    b["property"] = E("property")
+    from .interp import PropertyType
+
+    b["property"] = PropertyType()
     b["Ellipsis"] = Ellipsis
     b["NotImplemented"] = NotImplemented
     b["staticmethod"] = lambda f: f
